@@ -253,6 +253,10 @@ def _task_one(task):
                     if n >= 2:
                         cut = n // 2
                         variants += [([pk[:cut], pk[cut:]], "[f1,f2]"), ([pk[cut:], pk[:cut]], "[f2,f1]")]
+                    if n >= 2:
+                        # a non-final file that does not end on a packet boundary: each file is framed on its own
+                        variants += [([pk[:cut] + [b"\x07\x08\x09"], pk[cut:]], "[f1+3 stray bytes,f2]"),
+                                     ([pk[:cut] + [fam[0][:9]], pk[cut:]], "[f1+incomplete packet,f2]")]
                     for parts, lab in variants:
                         files = [write(part) for part in parts]
                         use_raw = (sum(seq) + n) % 2 == 1
@@ -295,7 +299,7 @@ def run(ctx):
         "exhaustive": True,
         "bound": (f"{len(ks)} definitions (each palette field kind on APID 1 + a boundary set of signed/unsigned widths 1..64; a fixed layout on APID 2; a polymorphic APID 3) x "
                   "8 pattern payloads + 12 dtype-stress payloads (leading/trailing/embedded NUL, spaces, non-ASCII, tiny/huge MIL-STD-1750A, integer extremes) singly and "
-                  f"together x use_raw_values {{F,T}}; every APID interleaving of <= {3 if ctx.quick else 4} packets over a 4-packet family x file lists [f1], [f1,f2], [f2,f1]"),
+                  f"together x use_raw_values {{F,T}}; every APID interleaving of <= {3 if ctx.quick else 4} packets over a 4-packet family x file lists [f1], [f1,f2], [f2,f1], [f1+stray bytes,f2], [f1+incomplete packet,f2]"),
         "rule": "one evaluation = one create_dataset call compared cell by cell with packet_generator's items; distinct non-trivial = distinct value packets per field kind",
     }
     return {"level": LEVEL, "tally": tally, "coverage": coverage,
